@@ -366,12 +366,29 @@ FUNCTIONS['TRIM'] = wrap_ufunc(
 FUNCTIONS['UPPER'] = wrap_ufunc(str.upper, **_kw1)
 
 
+_re_wildcard = regex.compile(r'~([*?])|([*?])')
+
+
 def xsearch(find_text, within_text, start_num=1):
     n = int(start_num - 1)
-    n = str(within_text).lower().find(str(find_text).lower(), n)
-    if n < 0:
+    find_text, within_text = _str(find_text), _str(within_text)
+    if n < 0 or n > len(within_text):
         return Error.errors['#VALUE!']
-    return n + 1
+    # Wildcards: `?` one character, `*` any run, `~?` and `~*` literal.
+    pattern, i = '', 0
+    for m in _re_wildcard.finditer(find_text):
+        pattern += regex.escape(find_text[i:m.start()])
+        pattern += regex.escape(m.group(1)) if m.group(1) else (
+            '.' if m.group(2) == '?' else '.*?'
+        )
+        i = m.end()
+    pattern += regex.escape(find_text[i:])
+    m = regex.compile(
+        pattern, regex.IGNORECASE | regex.DOTALL
+    ).search(within_text, n)
+    if m is None:
+        return Error.errors['#VALUE!']
+    return m.start() + 1
 
 
 FUNCTIONS['SEARCH'] = wrap_ufunc(xsearch, **_kw0)
